@@ -1273,6 +1273,32 @@ theorem fieldOf_clearHash (a g : Bytes) (h : Hash) :
   · simp [hg]
   · simp [hg]
 
+/-- the own checkpoint read from a cleared hash: it still parses (the version field is untouched) and carries no offset -/
+theorem ownCkpt_clearHash (a : Bytes) (h : Hash) (f : Fetched) (hf : ownCkpt a h = some f) :
+    ∃ f', ownCkpt a (clearHash a h) = some f' ∧ f'.offset = -1 := by
+  have hoff : offsetField a ∈ clearFields a := by simp [clearFields]
+  have hver : versionField a ∉ clearFields a := by
+    simp only [clearFields, List.mem_cons, List.not_mem_nil, or_false, not_or]
+    exact ⟨fun e => runId_ne_version a a e.symm, fun e => offset_ne_version a a e.symm⟩
+  unfold ownCkpt
+  by_cases he : (clearHash a h).isEmpty
+  · rw [if_pos he]; exact ⟨_, rfl, rfl⟩
+  · rw [if_neg he, fieldOf_clearHash, if_pos hoff, fieldOf_clearHash, if_neg hver]
+    unfold ownCkpt at hf
+    by_cases hh : h.isEmpty
+    · have : h = [] := List.isEmpty_iff.mp hh
+      subst this
+      exact absurd (by simp [clearHash_nil]) he
+    · rw [if_neg hh] at hf
+      cases ho : numField (fieldOf (offsetField a) h) (-1) with
+      | none => rw [ho] at hf; simp at hf
+      | some o =>
+        cases hv : numField (fieldOf (versionField a) h) 0 with
+        | none => rw [ho, hv] at hf; simp at hf
+        | some v =>
+          refine ⟨⟨(fieldOf (runIdField a) (clearHash a h)).getD unknownRunId, -1, v⟩, ?_, rfl⟩
+          simp [numField]
+
 theorem hashOf_setOthers (st : State) (d d' : Int) (n : Nat) : hashOf (setOthers st d n) d' = hashOf st d' := by
   unfold setOthers
   split
